@@ -5,6 +5,8 @@
 
 package watch
 
+// (labels: S.* and K.* are two proof slices — soundness and completeness of the selection need each other's
+// quantified invariants as little as possible in context; with one slice two VCs took 2-4 s and timed out on a loaded machine)
 // ---- C20: a watcher observes exactly the paths matching an include pattern and no exclude pattern
 // notExcluded(x): x matches no exclude pattern
 //@ pred selectedBy(watch []string, x string) := exists pi int, i int :: 0 <= pi && pi < len(watch) && 0 <= i && i < globN(watch[pi]) && x == globAt(watch[pi], i)
@@ -12,26 +14,26 @@ package watch
 //@ func NewWatcher
 //@   modifies nothing
 //@   ensures err == nil ==> w != nil && fresh(w)
-//@   ensures #C20.observed-paths-match err == nil ==> (forall j int :: 0 <= j && j < len(w.paths) ==> selectedBy(watch, w.paths[j]) && (forall e int :: 0 <= e && e < len(exclude) ==> !pathMatch(exclude[e], w.paths[j])))
-//@   ensures #C20.matching-paths-observed err == nil ==> (forall pi int, i int :: 0 <= pi && pi < len(watch) && 0 <= i && i < globN(watch[pi]) && (forall e int :: 0 <= e && e < len(exclude) ==> !pathMatch(exclude[e], globAt(watch[pi], i))) ==> (exists j int :: 0 <= j && j < len(w.paths) && w.paths[j] == globAt(watch[pi], i)))
+//@   ensures #C20-observed-paths-match err == nil ==> (forall j int :: 0 <= j && j < len(w.paths) ==> selectedBy(watch, w.paths[j]) && (forall e int :: 0 <= e && e < len(exclude) ==> !pathMatch(exclude[e], w.paths[j])))
+//@   ensures #C20-matching-paths-observed err == nil ==> (forall pi int, i int :: 0 <= pi && pi < len(watch) && 0 <= i && i < globN(watch[pi]) && (forall e int :: 0 <= e && e < len(exclude) ==> !pathMatch(exclude[e], globAt(watch[pi], i))) ==> (exists j int :: 0 <= j && j < len(w.paths) && w.paths[j] == globAt(watch[pi], i)))
 //@   ensures #C20.subscribed-events err == nil && len(events) > 0 ==> (forall i int :: 0 <= i && i < len(events) ==> w.events[events[i]]) && (forall s string :: w.events[s] ==> (exists i int :: 0 <= i && i < len(events) && events[i] == s))
 //@   ensures #C20.default-all-events err == nil && len(events) == 0 ==> w.events["create"] && w.events["write"] && w.events["remove"] && w.events["rename"] && w.events["chmod"]
 //@   loop 1 "range watch"
 //@     invariant #same w != nil && fresh(w) && allocated(w) && w.events != nil && fresh(w.events) && (forall s string :: !(s in w.events)) && len(watch) == len(watch0) && len(exclude) == len(exclude0) && len(events) == len(events0)
-//@     invariant #C20.sound forall j int :: 0 <= j && j < len(w.paths) ==> selectedBy(watch, w.paths[j]) && (forall e int :: 0 <= e && e < len(exclude) ==> !pathMatch(exclude[e], w.paths[j]))
-//@     invariant #C20.complete forall pi int, i int :: 0 <= pi && pi <= rangeindex && 0 <= i && i < globN(watch[pi]) && (forall e int :: 0 <= e && e < len(exclude) ==> !pathMatch(exclude[e], globAt(watch[pi], i))) ==> (exists j int :: 0 <= j && j < len(w.paths) && w.paths[j] == globAt(watch[pi], i))
+//@     invariant #S.C20-sound forall j int :: 0 <= j && j < len(w.paths) ==> selectedBy(watch, w.paths[j]) && (forall e int :: 0 <= e && e < len(exclude) ==> !pathMatch(exclude[e], w.paths[j]))
+//@     invariant #K.C20-complete forall pi int, i int :: 0 <= pi && pi <= rangeindex && 0 <= i && i < globN(watch[pi]) && (forall e int :: 0 <= e && e < len(exclude) ==> !pathMatch(exclude[e], globAt(watch[pi], i))) ==> (exists j int :: 0 <= j && j < len(w.paths) && w.paths[j] == globAt(watch[pi], i))
 //@   loop 2 "range matches"
 //@     invariant #same w != nil && fresh(w) && allocated(w) && w.events != nil && fresh(w.events) && (forall s string :: !(s in w.events)) && len(watch) == len(watch0) && len(exclude) == len(exclude0) && len(events) == len(events0) && rangeindex#1 >= 0 && rangeindex#1 < len(watch) && len(matches) == globN(watch[rangeindex#1]) && (forall i int :: 0 <= i && i < len(matches) ==> matches[i] == globAt(watch[rangeindex#1], i))
-//@     invariant #C20.sound forall j int :: 0 <= j && j < len(w.paths) ==> selectedBy(watch, w.paths[j]) && (forall e int :: 0 <= e && e < len(exclude) ==> !pathMatch(exclude[e], w.paths[j]))
-//@     invariant #C20.complete forall pi int, i int :: ((0 <= pi && pi < rangeindex#1 && 0 <= i && i < globN(watch[pi])) || (pi == rangeindex#1 && 0 <= i && i <= rangeindex)) && (forall e int :: 0 <= e && e < len(exclude) ==> !pathMatch(exclude[e], globAt(watch[pi], i))) ==> (exists j int :: 0 <= j && j < len(w.paths) && w.paths[j] == globAt(watch[pi], i))
+//@     invariant #S.C20-sound forall j int :: 0 <= j && j < len(w.paths) ==> selectedBy(watch, w.paths[j]) && (forall e int :: 0 <= e && e < len(exclude) ==> !pathMatch(exclude[e], w.paths[j]))
+//@     invariant #K.C20-complete forall pi int, i int :: ((0 <= pi && pi < rangeindex#1 && 0 <= i && i < globN(watch[pi])) || (pi == rangeindex#1 && 0 <= i && i <= rangeindex)) && (forall e int :: 0 <= e && e < len(exclude) ==> !pathMatch(exclude[e], globAt(watch[pi], i))) ==> (exists j int :: 0 <= j && j < len(w.paths) && w.paths[j] == globAt(watch[pi], i))
 //@   loop 3 "range exclude"
 //@     invariant #same w != nil && fresh(w) && allocated(w) && w.events != nil && fresh(w.events) && (forall s string :: !(s in w.events)) && len(watch) == len(watch0) && len(exclude) == len(exclude0) && len(events) == len(events0) && rangeindex#1 >= 0 && rangeindex#1 < len(watch) && len(matches) == globN(watch[rangeindex#1]) && (forall i int :: 0 <= i && i < len(matches) ==> matches[i] == globAt(watch[rangeindex#1], i)) && rangeindex#2 >= 0 && rangeindex#2 < len(matches) && path == matches[rangeindex#2]
-//@     invariant #C20.sound forall j int :: 0 <= j && j < len(w.paths) ==> selectedBy(watch, w.paths[j]) && (forall e int :: 0 <= e && e < len(exclude) ==> !pathMatch(exclude[e], w.paths[j]))
-//@     invariant #C20.complete forall pi int, i int :: ((0 <= pi && pi < rangeindex#1 && 0 <= i && i < globN(watch[pi])) || (pi == rangeindex#1 && 0 <= i && i < rangeindex#2)) && (forall e int :: 0 <= e && e < len(exclude) ==> !pathMatch(exclude[e], globAt(watch[pi], i))) ==> (exists j int :: 0 <= j && j < len(w.paths) && w.paths[j] == globAt(watch[pi], i))
-//@     invariant #C20.not-excluded-so-far !excluded && (forall e int :: 0 <= e && e <= rangeindex ==> !pathMatch(exclude[e], path))
+//@     invariant #S.C20-sound forall j int :: 0 <= j && j < len(w.paths) ==> selectedBy(watch, w.paths[j]) && (forall e int :: 0 <= e && e < len(exclude) ==> !pathMatch(exclude[e], w.paths[j]))
+//@     invariant #K.C20-complete forall pi int, i int :: ((0 <= pi && pi < rangeindex#1 && 0 <= i && i < globN(watch[pi])) || (pi == rangeindex#1 && 0 <= i && i < rangeindex#2)) && (forall e int :: 0 <= e && e < len(exclude) ==> !pathMatch(exclude[e], globAt(watch[pi], i))) ==> (exists j int :: 0 <= j && j < len(w.paths) && w.paths[j] == globAt(watch[pi], i))
+//@     invariant #C20-not-excluded-so-far !excluded && (forall e int :: 0 <= e && e <= rangeindex ==> !pathMatch(exclude[e], path))
 //@   loop 4 "range events"
 //@     invariant #same w != nil && fresh(w) && allocated(w) && w.events != nil && fresh(w.events) && (len(events0) > 0 ==> events == events0) && (len(events0) == 0 ==> len(events) == 5 && events[0] == "create" && events[1] == "write" && events[2] == "remove" && events[3] == "rename" && events[4] == "chmod")
-//@     invariant #C20.paths-done (forall j int :: 0 <= j && j < len(w.paths) ==> selectedBy(watch, w.paths[j]) && (forall e int :: 0 <= e && e < len(exclude) ==> !pathMatch(exclude[e], w.paths[j]))) && (forall pi int, i int :: 0 <= pi && pi < len(watch) && 0 <= i && i < globN(watch[pi]) && (forall e int :: 0 <= e && e < len(exclude) ==> !pathMatch(exclude[e], globAt(watch[pi], i))) ==> (exists j int :: 0 <= j && j < len(w.paths) && w.paths[j] == globAt(watch[pi], i)))
+//@     invariant #C20-paths-done (forall j int :: 0 <= j && j < len(w.paths) ==> selectedBy(watch, w.paths[j]) && (forall e int :: 0 <= e && e < len(exclude) ==> !pathMatch(exclude[e], w.paths[j]))) && (forall pi int, i int :: 0 <= pi && pi < len(watch) && 0 <= i && i < globN(watch[pi]) && (forall e int :: 0 <= e && e < len(exclude) ==> !pathMatch(exclude[e], globAt(watch[pi], i))) ==> (exists j int :: 0 <= j && j < len(w.paths) && w.paths[j] == globAt(watch[pi], i)))
 //@     invariant #C20.events-so-far (forall i int :: 0 <= i && i <= rangeindex ==> w.events[events[i]]) && (forall s string :: w.events[s] ==> (exists i int :: 0 <= i && i <= rangeindex && events[i] == s))
 
 // ---- C20: an event runs the watcher's task iff its type is subscribed, with EventName/EventPath set
